@@ -208,6 +208,18 @@ func main() {
 	} {
 		ls = append(ls, listed{t, true, "reserved-names"})
 	}
+	// well-formed by construction: '?' directly after ')' (shorthand / full ternary after a
+	// call or a parenthesised operand, error operator followed by a ternary) and integer
+	// literals with leading zeros -- must be accepted whatever look-ahead the parser uses
+	for _, t := range []string{
+		"RETURN LENGTH([1,2]) ?: 5", "RETURN (0) ? : 7", "RETURN (0) ?: 2", "RETURN (1 > 0) ? -1 : 2", "RETURN (1) ? 2 : 3",
+		"RETURN LENGTH([1]) ? 1 : 2", "RETURN LENGTH([1])? ?: 1", "RETURN LENGTH([1])? ? 1 : 2", "RETURN (1) ? (2) ?: 3 : 4",
+		"RETURN (0) ?: (0) ?: 3", "FOR i IN [0,1] RETURN (i) ?: 9", "FOR i IN [0,1] FILTER LENGTH([i]) ?: 0 RETURN i",
+		"LET a = (1) ? -2 : +3 RETURN a", "RETURN [(1) ?: 2, LENGTH([]) ? 1 : 0]", "RETURN {a: (1) ? 2 : 3}", "RETURN (1) ? !true : NOT false",
+		"RETURN 08", "RETURN 0019", "RETURN 00", "RETURN 007", "RETURN 09 + 010", "FOR i IN 08..09 RETURN i", "RETURN [08, 0.5, 010]",
+	} {
+		ls = append(ls, listed{t, true, "must-accept"})
+	}
 	// redundant parentheses directly after a clause keyword (recorded finding:
 	// the grammar lets every reserved word be a function name, and ALL(*)
 	// prefers the function-call statement)
